@@ -18,7 +18,7 @@ ID = "C11"
 LEVEL = "exploration"
 RULE = (
     "(i) Process level: a history = 0..6 actions (build / pure type_of+has_return query / compile / failing compile of "
-    "unrelated programs - generated recipes with subroutines, ABI values and routers, and seven failing builders: type "
+    "unrelated programs - generated recipes with subroutines, ABI values and routers, hand-written programs (inner method calls with transaction arguments and many fields; Break/Continue outside a loop, whose only correct outcome is an error), and nine failing builders (incl. a failure met while a loop body is lowered): type "
     "error inside a frame-pointer subroutine body, version too low inside a subroutine, load before store, too many slots, "
     "by-ref recursion, Cond without arms, none-typed main - / Router.compile_program 1..3 times) followed by compiling the "
     "target twice on the same object; every history runs in a FRESH interpreter (subprocess) under PYTHONHASHSEED in "
@@ -37,7 +37,12 @@ ASSUMPTIONS = ["subprocess interpreters are fresh (no shared state); the worker 
 SHARDS = {"quick": 16, "thorough": 16}
 N_EX = {"quick": 14, "thorough": 300}
 MIN_NONTRIVIAL = {"quick": 40, "thorough": 1500}
-BAD = ["type-error-in-fp-subroutine", "load-before-store", "too-many-slots", "byref-recursion", "cond-without-arms", "abi-in-fp-subroutine-then-version-error", "none-typed-main"]
+BAD = ["type-error-in-fp-subroutine", "load-before-store", "too-many-slots", "byref-recursion", "cond-without-arms", "abi-in-fp-subroutine-then-version-error", "none-typed-main",
+       "fail-inside-while-body", "fail-inside-for-body"]
+# hand-written programs (vf/c11_worker.py lib_program): targets whose only correct outcome is a PyTeal error, and API areas
+# whose emission iterates over dictionaries / sets of fields
+LIB_ERR = ["break-outside-loop", "continue-outside-loop", "break-in-subroutine-outside-loop"]
+LIB_OK = ["methodcall-pay-arg", "methodcall-two-txn-args", "execute-many-fields"]
 WORKER = os.path.join(env.VERIF_DIR, "vf", "c11_worker.py")
 
 _PRISTINE = {}
@@ -69,9 +74,12 @@ def first_diff(a, b):
 def run_case(case, col=None):
     out = []
     want = pristine(case["target"])
-    if want.startswith("ERROR"):
+    if want.startswith("ERROR") and case["target"]["item"]["k"] != "lib":
         if col:
             col.cls("discard:target-does-not-compile")
+        return out
+    if case["target"]["item"].get("which") in LIB_ERR and not want.startswith("ERROR"):
+        out.append(("must-be-refused", "the program %s compiled in a pristine process" % case["target"]["item"]["which"]))
         return out
     res = run_worker({"actions": case["actions"], "target": case["target"], "repeat": 2}, case["hashseed"])
     if col:
@@ -146,6 +154,16 @@ def cfg_for(draw, item):
 def target_strategy(draw):
     it = draw(item_strategy(allow_bad=False, small=True))
     return {"item": it, "cfg": cfg_for(draw, it)}
+
+
+def lib_targets(k):
+    """the hand-written targets, spread over the shards"""
+    names = LIB_ERR + LIB_OK
+    out = []
+    for j, nm in enumerate(names):
+        if j % 4 == k % 4:
+            out.append({"item": {"k": "lib", "which": nm}, "cfg": {"version": [6, 8, 10][(j + k) % 3]}})
+    return out
 
 
 @st.composite
@@ -364,6 +382,7 @@ def shard(tier, seedv, k, n, col: Collector):
     targets = []
     hyp_run(lambda t: targets.append(t), target_strategy(), 3 if tier == "quick" else 12, env.derive(seedv, "targets"))
     col.classes.pop("hypothesis-duplicate", None)
+    targets += lib_targets(k)
     hyp_run(body, case_strategy(tier, targets), N_EX[tier], seedv, key=lambda c: c, col=col)
     # one object, several compilations under different options
 
